@@ -16,6 +16,7 @@ import DarkluaModel.Rules.UnusedIfExprSound
 import DarkluaModel.Rules.UnusedIfBranchWhole
 import DarkluaModel.Rules.ComputeExpressionSound
 import DarkluaModel.Rules.EvalC08Sound
+import DarkluaModel.Rules.AllocSteps
 /-!
 # C01 — default rules preserve program behaviour: property theorems
 
@@ -570,5 +571,53 @@ theorem remove_nil_declaration_single_exact (api : EvalApi) (n : TName) {N : Num
 
 example : Rules.NilDeclaration.processLocal litApi (.localAssign .loc [.mk "x" none] [.nil])
     = .localAssign .loc [.mk "x" none] [] := rfl
+
+/-! ### step lemmas for the allocation-changing rules (remove_unused_variable, remove_nil_declaration)
+
+These rules drop or permute freshly allocated cells, so no exact hook lemma exists; the two local
+steps below are what an allocation-insensitive lifting (VisitorSound stage 3) has to be fed with. -/
+
+/-- **drop step**: `local x = e` whose initialiser evaluates state-exactly (side-effect free and
+non-allocating: `EvalSound.pure`) does nothing but allocate ONE fresh cell holding the value and bind `x`
+to it — every existing cell, the globals, tables, closures and the trace are untouched. -/
+theorem local_declaration_drop_step {N : NumOps} (call : CallFn N) (ρ : ExtOracle N) (k : Nat) (env : Env N)
+    (kind : LocalKind) (x : String) (ty : Option Ty) (e : Expr) (σ : State N) (vs : List (Val N))
+    (he : evalE call ρ k env e σ = .ok vs σ) :
+    execS call ρ k env (.localAssign kind [.mk x ty] [e]) σ =
+      .ok (.next { env with locals := (x, σ.cells.length) :: env.locals })
+        { σ with cells := σ.cells ++ [first vs] } :=
+  Rules.AllocSteps.local_single_pure call ρ k env kind x ty e σ vs he
+
+example {N : NumOps} (call : CallFn N) (ρ : ExtOracle N) (env : Env N) (σ : State N) :
+    evalE call ρ 1 env (.str [97]) σ = .ok [.str [97]] σ := by simp [evalE]
+
+/-- **permutation step**: two declarations that bind the same values to the same pairwise distinct names, in
+any order (what `remove_nil_declaration` does when it moves the nil-valued variables to the end — F24 is the
+case of repeated names), cannot be told apart through any variable lookup, agree on globals, tables, closures,
+trace and all old cells, and differ only in the order of the freshly allocated cells. -/
+theorem local_declaration_permute_step {N : NumOps} (env : Env N) (σ1 : State N)
+    (hwf : Rules.AllocSteps.envWF env σ1) (ns ns' : List String)
+    (hd : ns.Nodup) (hd' : ns'.Nodup) (hperm : ∀ x, x ∈ ns ↔ x ∈ ns') (hlen : ns.length = ns'.length)
+    (vs vs' : List (Val N))
+    (hval : ∀ x, x ∈ ns → Rules.AllocSteps.valueOf ns vs x = Rules.AllocSteps.valueOf ns' vs' x) :
+    let σa : State N := { σ1 with cells := σ1.cells ++ Rules.AllocSteps.padVals ns.length vs }
+    let σb : State N := { σ1 with cells := σ1.cells ++ Rules.AllocSteps.padVals ns'.length vs' }
+    let enva : Env N := { env with locals := Rules.AllocSteps.newLocals ns σ1.cells.length env.locals }
+    let envb : Env N := { env with locals := Rules.AllocSteps.newLocals ns' σ1.cells.length env.locals }
+    (∀ x, lookupVar enva x σa = lookupVar envb x σb) ∧
+      σa.globals = σb.globals ∧ σa.tables = σb.tables ∧ σa.closures = σb.closures ∧ σa.trace = σb.trace ∧
+      σa.cells.length = σb.cells.length ∧ (∀ c, c < σ1.cells.length → σa.getCell c = σb.getCell c) :=
+  Rules.AllocSteps.permute_observable env σ1 hwf ns ns' hd hd' hperm hlen vs vs' hval
+
+-- non-vacuity: `local a, b = nil, 1` vs `local b, a = 1` (the rule's output) bind the same values
+example : (["a", "b"] : List String).Nodup ∧ (["b", "a"] : List String).Nodup ∧
+    (∀ x, x ∈ ["a", "b"] ↔ x ∈ ["b", "a"]) ∧
+    (∀ x, x ∈ ["a", "b"] →
+      Rules.AllocSteps.valueOf (N := Rules.Witness.unitOps) ["a", "b"] [.nil, .num ()] x
+        = Rules.AllocSteps.valueOf ["b", "a"] [.num ()] x) := by
+  refine ⟨by decide, by decide, by intro x; simp [or_comm], ?_⟩
+  intro x hx
+  simp at hx
+  rcases hx with rfl | rfl <;> rfl
 
 end DarkluaModel.C01
